@@ -3,7 +3,7 @@
 
 def _c19_case(c):
     p = c.split(" ")
-    if p[0] in ("M", "T", "U", "L", "J", "B", "S"):
+    if p[0] in ("M", "T", "U", "L", "J", "B", "S", "D"):
         return {"op": p[0], "hex": p[1]}
     if p[0] == "F":
         return {"op": "F", "civil": " ".join(p[1:7])}
@@ -151,6 +151,9 @@ def _vm_goal(case, out):
         return "format_rfc3339_utc %s = %s" % (call, _vm_str(o[0]))
     if p[0] == "A" and o[1] != "UNREADABLE":
         return "(json_ann %s, read_obj (json_ann %s)) = (%s, Some (%s, (@nil N)))" % (_vm_ann(p[1]), _vm_ann(p[1]), _vm_str(o[0]), _vm_ann(o[1]))
+    if p[0] == "D":
+        sh = lambda t: "(@None str)" if t == "NONE" else "(Some %s)" % _vm_str(t)
+        return "(doc_media_type %s, doc_artifact_type %s) = (%s, %s)" % (_vm_str(p[1]), _vm_str(p[1]), sh(o[0]), sh(o[1]))
     if p[0] == "S":
         return "digest_of %s = %s" % (_vm_str(p[1]), _vm_str(o[0]))
     if p[0] == "J":
@@ -186,7 +189,7 @@ def _vm_goal(case, out):
 
 def _c19_vm_sample(d, tier, coq, build):
     import os, subprocess, collections
-    quota = {"K": 250, "M": 120, "T": 120, "U": 60, "L": 60, "J": 60, "B": 40, "F": 40, "S": 12, "A": 30} if tier == "thorough" else {"K": 30, "M": 15, "T": 15, "U": 10, "L": 10, "J": 10, "B": 5, "F": 5, "S": 3, "A": 5}
+    quota = {"K": 250, "M": 120, "T": 120, "U": 60, "L": 60, "J": 60, "B": 40, "F": 40, "S": 12, "A": 30, "D": 30} if tier == "thorough" else {"K": 30, "M": 15, "T": 15, "U": 10, "L": 10, "J": 10, "B": 5, "F": 5, "S": 3, "A": 5, "D": 5}
     outs = {}
     with open(os.path.join(d, "model.txt")) as f:
         for l in f:
